@@ -3,7 +3,7 @@ from engine_api import Cond
 PROPERTY = 'C17'
 LEVEL = 'other'
 ASSUMPTIONS = [
-    'element universe 0..U-1 (U=4 quick, 5 thorough); pre-state length <= 3 (4 thorough); second operand length <= 2',
+    'element universe 0..U-1 (U=4 quick, 5 thorough), plus universes containing None, a string and a tuple for the single-operand operations; pre-state length <= 3 (4 thorough); second operand length <= 2',
     'every selector is case-split (set elements are hashed); the pre-state is built with the class constructor',
     'observers: list, reversed, len, in over the whole universe, QuerySet.first/last',
     'non-in-place algebra (| & - ^) is checked for element content and self-consistency, not for a particular order',
@@ -29,6 +29,21 @@ def conditions(tier, seed):
                             func=('check_unary' if op in ('add', 'discard', 'remove') else 'check_iter' if op.startswith('iter') else 'check_nullary'),
                             bound='xs: dup-free sequences, |xs|<=%d over 0..%d; one %s' % (maxn, U - 1, op),
                             case_split=['cx (index into the table of all duplicate-free sequences)', 'k', 'mask']))
+    for el in ('none', 'mixed'):
+        for op in UNARY + ['isub_self', 'ixor_self', 'ior_list', 'eq_list']:
+            if tier == 'quick' and el == 'mixed' and op not in ('pop_last', 'pop_first', 'clear', 'add'):
+                continue
+            if '_' in op and op.split('_')[1] in ('self', 'list') and op.split('_')[0] in ('isub', 'ixor', 'ior', 'eq'):
+                o, ot = op.split('_')
+                out.append(Cond('step_%s_%s_%s' % (el, o, ot), 'c17_step.py', dict(op=o, cls='OrderedSet', otype=ot, U=U, maxn=maxn, maxm=maxm, elems=el),
+                                func=('check_self' if ot == 'self' else 'check_binary'), timeout=t,
+                                bound='as the integer conditions, element universe %s (None / str / tuple elements)' % el,
+                                case_split=['cx', 'cy'], twin=False))
+            else:
+                out.append(Cond('step_%s_%s' % (el, op), 'c17_step.py', dict(op=op, cls='OrderedSet', U=U, maxn=maxn, maxm=maxm, elems=el), timeout=t,
+                                func=('check_unary' if op in ('add', 'discard', 'remove') else 'check_iter' if op.startswith('iter') else 'check_nullary'),
+                                bound='as the integer conditions, element universe %s (None / str / tuple elements)' % el,
+                                case_split=['cx', 'k', 'mask'], twin=False))
     otypes = ['OrderedSet', 'list', 'tuple', 'self'] if tier == 'quick' else \
         ['OrderedSet', 'list', 'tuple', 'QuerySet', 'generator', 'self']
     for op in BINARY:
